@@ -6,4 +6,4 @@ From LasV Require Import Lib.Base Gen.GenCursor Gen.GenOwnership Model.Ownership
 Extraction Language OCaml.
 Extraction "../ocaml/c18/model.ml"
   Z.add Z.mul Z.sub Z.div_eucl Z.compare Z.of_nat Z.to_nat
-  trace run init obs_okb fail_exn header_read_pos.
+  trace run init init_at obs_okb fail_exn header_read_pos.
